@@ -303,7 +303,7 @@ def standard_proof_phase(ctx, gen_files_used=()):
 
 
 # ---------------------------------------------------------------- cases.v correspondence
-CASE_HDR = 'From SV Require Import Base.Prelude.\nOpen Scope Z_scope.\n'
+CASE_HDR = 'From SV Require Import Base.Prelude.\n'
 
 
 def run_cases(ctx, name, imports, preamble, exprs, shard=300, timeout=900):
@@ -317,7 +317,7 @@ def run_cases(ctx, name, imports, preamble, exprs, shard=300, timeout=900):
         part = exprs[k:k + shard]
         fn = os.path.join(BUILD, 'cases_%s_%s_%d.v' % (ctx.pid, name, k // shard))
         with open(fn, 'w') as fh:
-            fh.write(CASE_HDR + imports + '\n' + preamble + '\n')
+            fh.write(CASE_HDR + imports + '\nOpen Scope Z_scope.\n' + preamble + '\n')
             fh.write('Definition cs : list bool := [\n' + ';\n'.join(part) + '\n].\n')
             fh.write('Eval vm_compute in (bad_indices cs).\n')
         files.append((k, fn))
